@@ -2,10 +2,12 @@
 (* Lifecycle of operon_ai/state/telomere.py (repaired design: tick auto-starts without re-locking,
    senescence is entered only from ACTIVE).  Time is integer units of a virtual clock.
    D-layer: one action per public call (tick's auto-start is an internal step visible in obs.trans);
-   P-layer: property C09.  obs carries the call, its arguments, result and the atomic phase changes. *)
+   P-layer: property C09.  obs carries the call, its arguments, result and the atomic phase changes.
+   The @type comments are Apalache annotations (MC_TeloApa.tla: inductive invariant for every max_operations); TLC ignores them. *)
 EXTENDS Naturals, Integers, Sequences, TLC
 CONSTANTS MaxOps, ErrThreshold, AllowRenewal, Lifetime, IdleLimit, Costs, Amounts, NoLimit
 VARIABLES phase, length, errors, ops, age, idle, started, trueTicks, obs
+\* @type: <<Str, Int, Int, Int, Int, Int, Bool, Int, { op: Str, result: Bool, trans: Seq(<<Str, Str>>), n: Int, flag: Bool }>>;
 vars == <<phase, length, errors, ops, age, idle, started, trueTicks, obs>>
 Min(a, b) == IF a < b THEN a ELSE b
 Max(a, b) == IF a > b THEN a ELSE b
@@ -15,6 +17,7 @@ ErrCap == ErrThreshold + 1
 Init == /\ phase = "nascent" /\ length = MaxOps /\ errors = 0 /\ ops = 0 /\ age = 0 /\ idle = 0
         /\ started = FALSE /\ trueTicks = 0
         /\ obs = [op |-> "init", result |-> TRUE, trans |-> <<>>, n |-> 0, flag |-> FALSE]
+\* @type: (Str, Str) => Seq(<<Str, Str>>);
 Chg(p, q) == IF p = q THEN <<>> ELSE <<<<p, q>>>>
 OutT(o, r, t, n, f) == obs' = [op |-> o, result |-> r, trans |-> t, n |-> n, flag |-> f]
 Out(o, r) == OutT(o, r, Chg(phase, phase'), 0, FALSE)
@@ -64,6 +67,7 @@ Advance(d) == /\ age' = (IF started THEN Min(age + d, Cap) ELSE age) /\ idle' = 
 Next == \/ Start \/ RecordError \/ Heartbeat \/ CheckTimeouts \/ Apoptosis \/ Terminate \/ Reset
         \/ \E c \in Costs : Tick(c) \/ \E a \in Amounts, r \in BOOLEAN : Renew(a, r) \/ \E d \in 1..2 : Advance(d)
 Spec == Init /\ [][Next]_vars
+\* @type: <<Str, Int, Int, Int, Int, Int, Bool, Int>>;
 MCView == <<phase, length, errors, ops, age, idle, started, trueTicks>>
 (* ------------------------------ P-layer (property C09) ------------------------------ *)
 Legal(p, q, op) ==
@@ -74,6 +78,7 @@ Legal(p, q, op) ==
   \/ q = "apoptotic"  /\ p # "terminated" /\ op = "trigger_apoptosis"
   \/ q = "terminated" /\ op = "terminate"
   \/ q = "nascent"    /\ op = "reset"                      \* reset starts a new incarnation
+\* @type: (Seq(<<Str, Str>>), Str, Str) => Bool;
 Chained(t, p, q) == IF t = <<>> THEN p = q
                     ELSE /\ t[1][1] = p /\ t[Len(t)][2] = q /\ \A k \in 1..(Len(t) - 1) : t[k][2] = t[k + 1][1]
 StepOK ==
